@@ -16,10 +16,10 @@ RULE = ('trees = nests of dict / Dict / dictattr over string keys (some containi
         'patterns of 2..6 segments with 1..4 %wildcards, rows with unique paths -> table_to_tree (from None or onto an existing tree) -> '
         'tree_to_table -> table_to_tree (rows as list / dictable / single dict, pattern as string / list, dictable(tree, pattern)); tree_setitem cases (tuple / list / dotted-string path); tree_get on every path in every spelling; a 150-key branch, a depth-12 chain, a 150-row table. Everything is compared inside Coq with M_tree (cow = true). Oracle on the real outputs: rebuild == t, '
         'keys/values are the projections of items, getitem returns the leaf, result == the recursive merge written from the property text, '
-        'update(t,t) == t, update(t,{}) == t, snapshots of t and u unchanged, rows come back as the same set of rows. '
+        '(for EVERY dict-rooted u: branches of u that hold no leaf contribute nothing), update(t,t) == t, update(t,{}) == t, snapshots of t and u unchanged, rows come back as the same set of rows. '
         'non-trivial = update with a common key, flat tree of depth >= 2, table with >= 2 rows; distinct by the JSON of the case')
 EXPLANATION = ('theorems C15_* (coq/props/C15.v) hold for every tree of the inductive type (any depth and branching): flatten-then-insert '
-               '(what tree_update does) equals the recursive merge, rebuild is the identity, idempotence, empty update, and no assignment '
+               '(what tree_update does) equals the recursive merge of t with u minus its leafless branches, for all pairs (t, u) with distinct keys (C15_update_is_merge, no shape hypothesis on u), rebuild is the identity, idempotence, empty update, and no assignment '
                'of the repaired tree_update / table_to_tree goes into a dict object owned by an operand (ownership-flag formulation of the heap frame); '
                'for ANY list of rows with pairwise distinct paths under a pattern with distinct wildcard names, tree_to_table(table_to_tree(None, pattern, rows)) '
                'is a permutation of the rows restricted to the pattern columns (C15_table_tree_inverse) and rebuilding from that table gives the same tree '
@@ -140,6 +140,19 @@ def ref_merge(t, u, ignore):
             kids.append([k, new])
     return ['N', t[1] if is_node(t) else 'dict', kids]
 
+def prune_spec(u):
+    """u without the branches that hold no leaf (empty dicts, dicts nesting only empty dicts): they contribute nothing to an update"""
+    if not is_node(u):
+        return u
+    kids = []
+    for k, v in u[2]:
+        if is_node(v):
+            v = prune_spec(v)
+            if not v[2]:
+                continue
+        kids.append([k, v])
+    return ['N', u[1], kids]
+
 def plain(s):
     """the plain nested dict a description denotes (what == compares)"""
     return s[1] if not is_node(s) else {k: plain(v) for k, v in s[2]}
@@ -194,8 +207,8 @@ def impl(case):
             viol = '%s modified its left operand: it is now %s' % (call, after_t)
         elif after_u != before_u:
             viol = '%s modified its right operand: it is now %s' % (call, after_u)
-        elif is_node(st) and is_node(su) and full(su):
-            exp = plain(ref_merge(st, su, ign))
+        elif is_node(st) and is_node(su):
+            exp = plain(ref_merge(st, prune_spec(su), ign))
             if not (res == exp and exp == res):
                 viol = '%s = %s but the recursive merge is %s' % (call, res, exp)
             elif case.get('same') and not res == plain(st):
